@@ -137,6 +137,16 @@ func runRepoProps(r *Run, focus string) {
 			{Kind: "restart"},
 			{Kind: "provision", Loc: 11, Cands: []int{1}},
 			{Kind: "hs", Issuer: 7, Serial: 10, CDP: 0, Cands: []int{1}}}, false},
+		// a closed repository that is handed a new location whose list is found in the work directory (background mode, restart,
+		// failed provisioning, shutdown, handshake): the walk meets the closed entry or the listing one first (map order)
+		{repoCfg{"verify", "background", false, true}, []repoOp{
+			{Kind: "serve", Loc: 2, Served: "doc", Doc: &repoDoc{Signer: 3, Number: 931, Serials: []int64{12}}},
+			{Kind: "hs", Issuer: 8, Serial: 12, CDP: 2, Cands: []int{3}}, {Kind: "tick"},
+			{Kind: "hs", Issuer: 8, Serial: 12, CDP: 2, Cands: []int{3}}, {Kind: "tick"},
+			{Kind: "restart"},
+			{Kind: "provision", Loc: 11, Cands: []int{1}},
+			{Kind: "close"},
+			{Kind: "hs", Issuer: 8, Serial: 12, CDP: 2, Cands: []int{3}}, {Kind: "tick"}}, false},
 		// (seeded defect C16-f) verify_log on disk: unverifiable first list, a genuine list no stored signer can vouch for, a forged
 		// list, a connection that presents the genuine signer, restart under verify: the forged list must not be in force
 		{repoCfg{"verify_log", "actively", false, true}, []repoOp{
